@@ -676,6 +676,24 @@ impl ExtensionStore {
             })
             .collect();
 
+        // `extend_list` trims arguments that another member of the extended list
+        // covers. If the member that covered one of this pseudo's own arguments
+        // was an extender that has just been dropped as unsupported, the argument
+        // has to come back: otherwise the selector silently changes meaning.
+        if self.mode != ExtendMode::Replace {
+            if let Some(original) = pseudo.selector.as_deref() {
+                let lost: Vec<ComplexSelector> = original
+                    .components
+                    .iter()
+                    .filter(|complex| !complexes.iter().any(|kept| kept.is_super_selector(complex)))
+                    .cloned()
+                    .collect();
+                if !lost.is_empty() {
+                    complexes.splice(0..0, lost);
+                }
+            }
+        }
+
         // Older browsers support `:not`, but only with a single complex selector.
         // In order to support those browsers, we break up the contents of a `:not`
         // unless it originally contained a selector list.
